@@ -3,6 +3,7 @@
    extracted by Extract_C19.v and run against lib/array.c by the correspondence check. *)
 From Coq Require Import ZArith List NArith.
 Require Import Verif.gen.Consts_array Verif.ArrayModel Verif.ArrayProofs Verif.ArrayRefine.
+Require Import Verif.ArrayConcModel Verif.ArrayConcProofs.
 Import ListNotations.
 Local Open Scope Z_scope.
 
@@ -96,3 +97,52 @@ Example C19_example_history :
              OIndex 0 (Some (0, 24)) []; OIndex 0 (Some (1, 120)) [249];
              OVal (Some 200%N); OVal (Some 0%N); OIndex (-34) None []; OIndex (-34) None []].
 Proof. vm_compute. reflexivity. Qed.
+
+(* ======================================================================================== *)
+(* Concurrent callers (interleaving model ArrayConcModel.v; `exec fixed sched' runs ANY schedule). *)
+
+(* REFUTED for lib/array.c as found (fixed = false): two threads, 13 scheduling steps, and thread 0 reads
+   the bin table after thread 1's qb_array_grow has reallocated and freed it.  The same programs and
+   schedule are in the corpus of the check (vlib/arrconc.py) and reproduce the read of the freed table on
+   the real library; repaired by fixes/C19-index-bin-read-under-lock.patch. *)
+Theorem C19_conc_refuted_before_fix : exists s, refute_run false = Some s /\ c_err s = true /\ In (EUaf 0 1) (c_log s).
+Proof. exact unfixed_uaf. Qed.
+Print Assumptions C19_conc_refuted_before_fix.
+
+(* The repaired code (fixed = true), for all thread counts, programs and schedules: no freed table is
+   ever read, the sequential invariant holds in every reachable state, and every return event satisfies
+   ret_ok (a successful index returns the address where the index lives in the shared state). *)
+Theorem C19_conc_safe : forall max es auto w0 progs sched, 0 <= max -> create max es auto false = Some w0 ->
+  let s := exec true sched (cinit w0 progs) in
+  c_err s = false /\ Inv (c_w s) /\ (forall e, In e (c_log s) -> ret_ok (c_w s) e) /\ forallb quiet (c_log s) = true.
+Proof. exact conc_safe. Qed.
+Print Assumptions C19_conc_safe.
+
+(* ... hence, over all threads and all times of any interleaved execution: one address per index,
+   disjoint storage for different indices, addresses inside live blocks, and no success outside [0, 65536). *)
+Theorem C19_conc_addresses : forall max es auto w0 progs sched, 0 <= max -> create max es auto false = Some w0 ->
+  let s := exec true sched (cinit w0 progs) in
+  (forall t1 k1 t2 k2 i rc1 rc2 a1 a2,
+     In (ERet t1 k1 (CIndex i) rc1 (Some a1)) (c_log s) -> In (ERet t2 k2 (CIndex i) rc2 (Some a2)) (c_log s) ->
+     a1 = a2) /\ (forall t1 k1 t2 k2 i j rc1 rc2 a b,
+     In (ERet t1 k1 (CIndex i) rc1 (Some a)) (c_log s) -> In (ERet t2 k2 (CIndex j) rc2 (Some b)) (c_log s) ->
+     i <> j -> disjoint_ranges es a b) /\ (forall t k i rc blk off, In (ERet t k (CIndex i) rc (Some (blk, off))) (c_log s) ->
+     exists bl, nth_error (heap (c_w s)) (Z.to_nat blk) = Some bl /\ 0 <= off /\ off + es <= b_size bl) /\ (forall t k i rc addr, In (ERet t k (CIndex i) rc addr) (c_log s) ->
+     (i < 0 \/ ARRAY_MAX_ELEMENTS <= i -> rc < 0) /\ (rc <> 0 -> rc < 0 /\ addr = None) /\ (rc = 0 -> addr <> None)).
+Proof. exact conc_addresses. Qed.
+Print Assumptions C19_conc_addresses.
+
+(* No step taken outside a critical section touches a location that a critical section writes (this is
+   what justifies treating lock-protected sections as atomic steps, in the model and in the scheduler). *)
+Theorem C19_conc_race_free : forall max es auto w0 progs sched, 0 <= max -> create max es auto false = Some w0 ->
+  forall t l, In (EStep t l) (c_log (exec true sched (cinit w0 progs))) -> racy_label l = false.
+Proof. exact conc_race_free. Qed.
+Print Assumptions C19_conc_race_free.
+
+(* Non-vacuity: on the repaired model the witness schedule completes index 17 with a real address,
+   while the code as found makes racy steps on it. *)
+Example C19_conc_example : exists s, refute_run true = Some s /\ c_err s = false /\
+  filter is_ret (c_log s) = [ERet 1 0 (CGrow 100) 0 None; ERet 0 0 (CIndex 17) 0 (Some (0, 8))].
+Proof. eexists. split; [reflexivity|]. split; vm_compute; reflexivity. Qed.
+Example C19_conc_unfixed_is_racy : exists s, refute_run false = Some s /\ existsb is_step_racy (c_log s) = true.
+Proof. exact unfixed_racy. Qed.
